@@ -69,6 +69,15 @@ Split(mode, lay) ==
    IF mode = "sp" THEN NonEmpty(Pieces(NoCmt(lay), IsBlank))
    ELSE LET ps == Pieces(lay, IsSep) IN NonEmpty([i \in DOMAIN ps |-> Strip(NoCmt(ps[i]))])
 
+\* The same reader when comment lines are NOT discarded (interpret_as / interpret with
+\* discard_comments_on_read=False): an item runs from its first to its last word, comment lines inside included.
+FromFirstToLastWord(p) == LET I == {i \in 1..Len(p) : IsWord(p[i])} IN
+                          IF I = {} THEN <<>>
+                          ELSE SubSeq(p, CHOOSE i \in I : \A j \in I : i <= j, CHOOSE i \in I : \A j \in I : i >= j)
+SplitKeep(mode, lay) ==
+   IF mode = "sp" THEN Split(mode, lay)
+   ELSE LET ps == Pieces(lay, IsSep) IN NonEmpty([i \in DOMAIN ps |-> FromFirstToLastWord(ps[i])])
+
 \* ---- syntactic validity of a field value ----------------------------------
 LineStart(lay, i) == i > 1 /\ lay[i - 1] \in {NL, CM}
 Valid(lay) ==
@@ -139,7 +148,10 @@ ARefRemove(i)  == i \in 1..Len(vals) /\ LET n == LDel(vals, i) IN vals' = n /\ t
 AAppendSep     == vals' = vals /\ tail' = "none" /\ res' = "ok"
 AAppendNl      == IF tail = "none" THEN vals' = vals /\ tail' = "nl" /\ res' = "ok" ELSE Same("ValueError")
 AAppendCmt     == vals' = vals /\ tail' = "cmt" /\ res' = "ok"
-AReformat      == Same("ok")
+AReformat      == Same("ok")       \* also no_reformatting_when_finished, value_formatter(...)
+\* a with-block left by an exception (__exit__ with an exception argument) writes nothing: the document
+\* keeps what it held; the list object keeps its edits
+AAbort         == Same("ok")
 \* leaving the with-block may refuse to write (ValueError, document untouched) only when the
 \* field would have no value or would end in a comment line
 CloseMayRefuse == vals = <<>> \/ tail = "cmt"
